@@ -31,6 +31,20 @@ theorem load_none {α : Type} {w : Nat} (mem : List (BitVec w)) (i : Nat) (k : B
     (h : mem.length ≤ i) : load mem i k = .oob := by
   unfold load; rw [List.getElem?_eq_none h]
 
+/-- `*(block + i) = v`: outside the block the run ends in `oob` -/
+def store {α : Type} {w : Nat} (mem : List (BitVec w)) (i : Nat) (v : BitVec w) (k : List (BitVec w) → Res α) : Res α :=
+  if i < mem.length then k (mem.set i v) else .oob
+
+theorem store_in {α : Type} {w : Nat} (mem : List (BitVec w)) (i : Nat) (v : BitVec w) (k : List (BitVec w) → Res α)
+    (h : i < mem.length) : store mem i v k = k (mem.set i v) := by
+  unfold store; rw [if_pos h]
+
+/-- what a callee left in the one-cell block `[x]` it was handed for `&x` -/
+def cellOf {w : Nat} (blk : List (BitVec w)) (old : BitVec w) : BitVec w := blk.headD old
+
+/-- the block after a callee that was handed its tail from `i` on gave that tail back -/
+def splice {w : Nat} (blk : List (BitVec w)) (i : Nat) (tail : List (BitVec w)) : List (BitVec w) := blk.take i ++ tail
+
 /-- conversion of an unsigned value to a wider type -/
 def zx {w : Nat} (w' : Nat) (x : BitVec w) : BitVec w' := x.setWidth w'
 /-- conversion of a signed value to a wider type -/
@@ -39,5 +53,32 @@ def sx {w : Nat} (w' : Nat) (x : BitVec w) : BitVec w' := x.signExtend w'
 def tr {w : Nat} (w' : Nat) (x : BitVec w) : BitVec w' := x.setWidth w'
 /-- the `int` a comparison yields -/
 def b2bv32 (p : Prop) [Decidable p] : BitVec 32 := if p then 1#32 else 0#32
+
+/-- `p - q` for two pointers into one block (element indices) -/
+def ptrdiff (w : Nat) (i j : Nat) : BitVec w := BitVec.ofInt w ((i : Int) - (j : Int))
+
+/-- the `_Bool` a conversion to bool yields -/
+def b2bv8 (p : Prop) [Decidable p] : BitVec 8 := if p then 1#8 else 0#8
+
+/-! ### external functions -/
+
+/-- what an octet source will do when asked the next times: deliver an octet, or answer a (negative) code and leave
+    the caller's cell alone.  An exhausted source answers `-ENODATA`. -/
+inductive SrcEv where
+  | octet (v : BitVec 8)
+  | fail (rc : BitVec 32)
+  deriving Repr, DecidableEq
+
+abbrev Src := List SrcEv
+
+/-- `-ENODATA` (61 on the target) as an `int` -/
+def NEG_ENODATA : BitVec 32 := -(61#32)
+
+/-- `int source_get_octet(Source *source, void *data)`: value, the source afterwards, the caller's cell afterwards -/
+def source_get_octet (s : Src) (cell : List (BitVec 8)) : Res (BitVec 32 × Src × List (BitVec 8)) :=
+  match s with
+  | [] => .val (NEG_ENODATA, [], cell)
+  | .octet v :: r => .val (1#32, r, cell.set 0 v)
+  | .fail rc :: r => .val (rc, r, cell)
 
 end Ufw.Tie.CPre
